@@ -468,3 +468,5 @@ _quick("C07", "C16_update", "(also under C16) a persisted hold whose holder chan
 _quick("C11", "C11_sharedfail", "a key of capacity 2: a plain holder keeps one slot, an ack-required lock goes pending on the other, a third request queues; the acknowledgement fails (negative follower ack / the wait runs out): one error reply, the hold gone, the queued request granted the freed slot although the key still has another holder", ["-witness", "1"], reach=["end", "nack", "ack-timeout"])
 
 _quick("C09", "C09_twowriters", "two writers in Aof.PushLock, the harness as scheduler: right before the first writer acquires replGlock (vfLockHook) a second writer runs its whole PushLock if, and only if, the first no longer holds aofGlock; both records come out of the replication ring, and lie in the log file, in the order of their log positions", [], reach=["end", "serialised"], native=False)
+
+_quick("C04", "C04_window", "A holds, B is queued (symbolic priority flag and priority), A unlocks; a third client's LOCK (symbolic priority flag and priority) arrives between the release of the key's mutex and the wake-up pass (sent from inside the unlock's reply callback, which runs exactly there): unless its priority is strictly higher it must not be granted ahead of B", ["-witness", "1"], reach=["no-bypass"])
